@@ -540,7 +540,32 @@ def rule_g6(ctx):
                      f"prefix lengths range over range(1, {mm.group(1)}), which stops one short of the full common prefix: the deepest common ancestor-or-self is never used as an anchor "
                      "(wrong verdicts when the two nodes diverge exactly at a node labelled with the nonterminal)")
         else:
-            raise Unrecognised("C04.G6", c, "computation of the common nonterminal prefixes is not in the recognised shape")
+            # comprehension form: N = number of leading indices the two paths share; anchors = [()] + [p1[:L] for L in range(1, N + 1) if label(p1[:L]) == nonterminal]
+            ncommon = None
+            for a_ in [x for x in walk_local(f) if isinstance(x, ast.Assign) and len(x.targets) == 1 and isinstance(x.targets[0], ast.Name)]:
+                ta = " ".join(src(a_.value).split())
+                if _re2.fullmatch(rf"next\(\((\w+) for \1, \((\w+), (\w+)\) in enumerate\(zip\({p1}, {p2}\)\) if \2 != \3\), min\(len\({p1}\), len\({p2}\)\)\)", ta):
+                    ncommon = a_.targets[0].id
+            comp = None
+            for x in walk_local(f):
+                if isinstance(x, (ast.Assign, ast.AnnAssign)) and "common_nonterminal_prefixes" in src(x.targets[0] if isinstance(x, ast.Assign) else x.target):
+                    for y in ast.walk(x.value):
+                        if isinstance(y, ast.ListComp) and len(y.generators) == 1 and isinstance(y.generators[0].iter, ast.Call) and call_name(y.generators[0].iter) == "range":
+                            comp = y
+            if ncommon and comp is not None and isinstance(comp.generators[0].target, ast.Name):
+                L = comp.generators[0].target.id
+                rng = [" ".join(src(a_).split()) for a_ in comp.generators[0].iter.args]
+                elt_ok = " ".join(src(comp.elt).split()) == f"{p1}[:{L}]" and any(f"get_subtree({p1}[:{L}]).value == nonterminal" in " ".join(src(i_).split()) for i_ in comp.generators[0].ifs)
+                if elt_ok and rng == ["1", f"{ncommon} + 1"]:
+                    ctx.ok("G6-level-anchors", c, "anchors = () and every common prefix labelled with the nonterminal", site(comp), f"prefix lengths 1..{ncommon}")
+                elif elt_ok and rng == ["1", ncommon]:
+                    ctx.viol("G6-level-anchors", c, "anchors include the deepest common prefix", site(comp),
+                             f"prefix lengths range over range(1, {ncommon}) where {ncommon} is the number of leading indices the two paths share: the common prefix of length {ncommon} - the deepest "
+                             "common ancestor - is never an anchor, so level(...) is false for two nodes that sit in different children of the scoping nonterminal")
+                else:
+                    raise Unrecognised("C04.G6", c, f"anchor comprehension over range({', '.join(rng)}) not understood")
+            else:
+                raise Unrecognised("C04.G6", c, "computation of the common nonterminal prefixes is not in the recognised shape")
     occ = f"[path[:idx] for idx in range(len(prefix) + 1, len(path)) if context_tree.get_subtree(path[:idx]).value == nonterminal]"
     if occ not in t:
         # recognised-bad variants of the range: it must enumerate the proper prefixes of the node's path that are strictly longer than the anchor
